@@ -328,7 +328,8 @@ func (c *Cluster) KRound() {
 			_ = c.Bind(p)
 		}
 		if cs := mainStatusRO(p); cs != nil && cs.State.Waiting != nil {
-			continue
+			// "created pods get scheduled and become Ready": the kubelet eventually gets the container running
+			cs.State = corev1.ContainerState{Running: &corev1.ContainerStateRunning{StartedAt: nowT()}}
 		}
 		_ = c.KReady(p)
 	}
